@@ -66,7 +66,8 @@ func wsText(f, v string) string {
 
 func watched(file string, typ int) proto.Step {
 	return proto.Step{M: "workspace/didChangeWatchedFiles", N: true,
-		P: json.RawMessage(fmt.Sprintf(`{"changes":[{"uri":"file://$ROOT/%s","type":%d}]}`, file, typ))}
+		// (the client watches the whole workspace: the batch also carries an event for a file that is not Lua, first)
+		P: json.RawMessage(fmt.Sprintf(`{"changes":[{"uri":"file://$ROOT/notes.txt","type":2},{"uri":"file://$ROOT/%s","type":%d}]}`, file, typ))}
 }
 
 type tdiag struct {
